@@ -25,6 +25,10 @@ impl CompilerState { #[verifier::external_body] pub fn syntax_error(&self, messa
 // ---- ghost 6502 with a pending jump; `truth` is the (arbitrary) truth value of the condition being lowered ------------------------------
 pub struct M { pub a: int, pub tmp: int, pub stack: Seq<int>, pub skip: Option<Seq<char>>, pub truth: bool }
 pub uninterp spec fn imm(v: i32) -> int;
+pub uninterp spec fn sem(e: Expr) -> int;           // the value an expression denotes
+pub uninterp spec fn of(e: ExprType) -> int;          // the value a memory operand / constant / index register denotes
+pub open spec fn val(g: M, e: ExprType) -> int { match e { ExprType::A(_) => g.a, ExprType::Tmp(_) => g.tmp, _ => of(e) } }  // the value an evaluated operand denotes in a machine state
+#[verifier::external_body] pub fn exprtype_ne(a: &ExprType, b: &ExprType) -> (r: bool) { unimplemented!() }      // R3: derived PartialEq on ExprType (result not used by the contract)
 #[verifier::external_body] pub proof fn axiom_imm01() ensures imm(0) == 0, imm(1) == 1 {}
 pub open spec fn exec(g: M, m: AsmMnemonic, e: ExprType) -> M {
     if m == LDA && e is Immediate { M { a: imm(e->Immediate_0), ..g } }
@@ -68,6 +72,23 @@ STUBS = """
     pub(crate) fn label(&mut self, l: &str) -> (res: Result<(), Error>)
         ensures plain_same(old(self), final(self)), res is Ok,
             final(self).gh@ == (if old(self).gh@.skip == Some(l@) { M { skip: None, ..old(self).gh@ } } else { old(self).gh@ }),
+    { unimplemented!() }
+    // an expression is evaluated: the operand returned denotes its value (nothing happens while a jump is pending)
+    #[verifier::external_body]
+    pub(crate) fn generate_expr(&mut self, expr: &Expr, pos: usize, high_byte: bool, second_time: bool) -> (res: Result<ExprType, Error>)
+        ensures final(self).compiler_state == old(self).compiler_state, final(self).local_label_counter_if >= old(self).local_label_counter_if, final(self).tmp_in_use == old(self).tmp_in_use,
+            res is Ok ==> final(self).gh@.skip == old(self).gh@.skip && final(self).gh@.stack == old(self).gh@.stack && final(self).gh@.truth == old(self).gh@.truth && final(self).gh@.tmp == old(self).gh@.tmp,
+            (res is Ok && old(self).gh@.skip is Some) ==> final(self).gh@ == old(self).gh@,
+            (res is Ok && old(self).gh@.skip is None) ==> val(final(self).gh@, res->Ok_0) == sem(*expr),
+            res is Ok ==> final(self).acc_in_use == (old(self).acc_in_use || res->Ok_0 is A),
+    { unimplemented!() }
+    // assignment to the accumulator (the only destination the ternary uses)
+    #[verifier::external_body]
+    pub(crate) fn generate_assign(&mut self, left: &ExprType, right: &ExprType, pos: usize, high_byte: bool) -> (res: Result<ExprType, Error>)
+        requires left is A, !old(self).acc_in_use || right is A, //@ C01:condval-assign-to-free-accumulator
+        ensures final(self).compiler_state == old(self).compiler_state, final(self).local_label_counter_if == old(self).local_label_counter_if, final(self).tmp_in_use == old(self).tmp_in_use,
+            res is Ok ==> res->Ok_0 is A && final(self).acc_in_use,
+            res is Ok ==> final(self).gh@ == (if old(self).gh@.skip is Some { old(self).gh@ } else { M { a: val(old(self).gh@, *right), ..old(self).gh@ } }),
     { unimplemented!() }
     // the condition is lowered to jumps: control goes to `label` exactly when it holds (negated if asked); a constant condition may be reported instead
     #[verifier::external_body]
@@ -116,14 +137,18 @@ def candidates(f):
                             "simulate": {"init": {"a": a, "e": e, "b": 10}, "expect": {"c": 11 + val}, "stack_empty": True}, "note": "a=%d e=%d live accumulator" % (a, e)})
                 out.append({"source": "unsigned char a, b, c, e;\nvoid main() { c = %s; }\n" % expr, "args": ["-O0"], "expect": {"panic": False},
                             "simulate": {"init": {"a": a, "e": e}, "expect": {"c": val}, "stack_empty": True}, "note": "a=%d e=%d" % (a, e)})
+            out.append({"source": "unsigned char a, b, c, e;\nvoid main() { c = a ? e : 4; }\n", "args": ["-O0"], "expect": {"panic": False},
+                        "simulate": {"init": {"a": a, "e": e}, "expect": {"c": e if a else 4}, "stack_empty": True}, "note": "ternary a=%d e=%d" % (a, e)})
+            out.append({"source": "unsigned char a, b, c, e;\nvoid main() { c = (b + 1) + (a ? e : 4); }\n", "args": ["-O0"], "expect": {"panic": False},
+                        "simulate": {"init": {"a": a, "e": e, "b": 10}, "expect": {"c": 11 + (e if a else 4)}, "stack_empty": True}, "note": "ternary, live accumulator a=%d e=%d" % (a, e)})
     return out
 
 
 def build(repo):
-    u = Unit(NAME, TOOL, PROPS, ["src/generate/generate_conditions.rs: GeneratorState::generate_expr_cond", "src/generate/generate_arithm.rs: GeneratorState::generate_not"],
+    u = Unit(NAME, TOOL, PROPS, ["src/generate/generate_conditions.rs: GeneratorState::generate_expr_cond", "src/generate/generate_arithm.rs: GeneratorState::generate_not", "src/generate/generate_conditions.rs: GeneratorState::generate_ternary"],
              assumptions=["generate_condition is a stub carrying the contract stated in TRUSTED; its precondition `accumulator not marked live` is an obligation of this unit",
                           "the truth value of the condition is an arbitrary boolean fixed for the run (ghost), i.e. the postconditions hold for both",
-                          "generate_ternary (the same save / lower / pull shape around two assignments) is not under contract"])
+                          "generate_expr / generate_assign are stubs for generate_ternary: an evaluated operand denotes the expression's value; an assignment to the free accumulator puts the value there"])
     gc = SourceFile(repo, "src/generate/generate_conditions.rs")
     ga = SourceFile(repo, "src/generate/generate_arithm.rs")
     gm = SourceFile(repo, "src/generate/mod.rs")
@@ -149,6 +174,33 @@ def build(repo):
         f.set_header(_header(name, params, want), expect_sig=sig)
         f.body_start("        proof { axiom_imm01(); lemma_labels_differ(self.local_label_counter_if as int + 1); }")
         parts.append(f.text)
+    # ---- generate_ternary
+    t = gc.fn("generate_ternary", within="GeneratorState")
+    cuts.append(t)
+    t.sub(r"(\w+_label)\.clone\(\)", r"string_clone(&\1)", "R11 String::clone -> shim", expect=(0, 8))
+    t.sub(r"\bla != ra\b", "exprtype_ne(&la, &ra)", "R3 derived PartialEq on ExprType -> shim (the result only selects an error)", expect=(0, 4))
+    t.sub(r"if \*op == Operation::TernaryCond2 \{", "if (match *op { Operation::TernaryCond2 => true, _ => false }) {", "R3 `*op == V` -> match", expect=(0, 1))
+    fm.apply(t)
+    tbase = t.text
+    for suffix, case in (("", "true"),):
+        t.text = tbase
+        t.set_header("""#[verifier::exec_allows_no_decreases_clause]
+    pub(crate) fn generate_ternary%s(&mut self, condition: &Expr, alternatives: &Expr, pos: usize) -> (res: Result<ExprType, Error>)
+        requires
+            %s,
+            old(self).gh@.skip is None,
+            old(self).local_label_counter_if < 0xffff_fff0,
+        ensures
+            final(self).compiler_state == old(self).compiler_state,
+            res is Ok ==> alternatives is BinOp,
+            res is Ok ==> final(self).gh@.skip is None, //@ C01,C13:ternary-jumps-land
+            // the value of `c ? x : y`
+            res is Ok ==> val(final(self).gh@, res->Ok_0) == (if old(self).gh@.truth { sem(*alternatives->BinOp_lhs) } else { sem(*alternatives->BinOp_rhs) }), //@ C01:ternary-value
+            res is Ok ==> final(self).gh@.stack == old(self).gh@.stack, //@ C01:ternary-stack-balanced
+            (res is Ok && old(self).acc_in_use) ==> (final(self).gh@.a == old(self).gh@.a && final(self).acc_in_use && res->Ok_0 is Tmp), //@ C01:ternary-live-accumulator-kept
+""" % (suffix, case), expect_sig="fn generate_ternary( &mut self, condition: &Expr, alternatives: &Expr, pos: usize, ) -> Result<ExprType, Error>")
+        t.body_start("        proof { lemma_labels_differ(self.local_label_counter_if as int + 1); }")
+        parts.append(t.text)
     # generate_not folds a literal operand: `Expr::Integer(i) => if *i != 0 {0} else {1}`: the truth value of a literal is its being non-zero
     text = common.PRELUDE + common.header_comment(NAME, cuts) + "verus! {\n" + common.DEC_SPECS + (SPECS % {"types": "\n".join(tys)}) + common.STR_PREFIX_SHIM + fm.text() + \
         "impl<'a> GeneratorState<'a> {\n" + STUBS + "\n" + "\n".join(parts) + "\n}\n" + common.CANARY + "\n} // verus!\n"
